@@ -179,8 +179,10 @@ class Executor:
             full = '%s#%d' % (base, n)
         if st.guards:
             goal = z3.Implies(z3.And(*st.guards), goal)
-        hyps = self.path_axioms(st, goal) + list(st.pc)
+        ax = self.path_axioms(st, goal)
+        hyps = ax + list(st.pc)
         o = Obligation(full, kind, hyps, goal, self.cur_line, note)
+        o.n_axioms = len(ax)          # hyps[:n_axioms] are definitional axioms
         o.variant = self.variant
         o.trace = list(st.trace)
         o.heads = dict(st.heads)
@@ -1423,6 +1425,21 @@ class Executor:
                     for kind, s2, _ in outs:
                         if kind == 'next':
                             handler(self, node, s2)
+        # ghost assertions after a statement (spec key `cuts`): each is proved at
+        # this point (auxiliary obligation) and then available as a fact - the
+        # cut rule; it adds no assumption
+        for prefix, texts in self.spec.get('cuts', {}).items():
+            seg = ast.get_source_segment(self.fsrc.src, node) or ''
+            if seg.startswith(prefix):
+                outs = list(outs)
+                for kind, s2, _ in outs:
+                    if kind != 'next':
+                        continue
+                    for n_, text in enumerate(texts):
+                        nm, text = text if isinstance(text, tuple) else ('cut%d' % (n_ + 1), text)
+                        goal = self.spec_bool(text, s2)
+                        self.oblige(s2, 'cut@L%s:%s' % (node.lineno, nm), goal, 'cut', note=text)
+                        s2.assume(goal)
         # exceptional exits raised while evaluating expressions of this stmt
         new = self.exits[mark:]
         del self.exits[mark:]
@@ -1548,9 +1565,60 @@ class Executor:
             if p is None:
                 raise OutsideSubset('assignment target (line %s)'
                                     % self.cur_line)
+            self.detach_aliases(st, p[0], p[1])
             self.write_path(st, p[0], p[1], val)
             return
         raise OutsideSubset('assignment target %s' % type(tgt).__name__)
+
+    def detach_aliases(self, st, root, path):
+        '''the cell root/path is about to be *replaced* (not mutated in place):
+        a local that aliases that cell, or something inside it, keeps the old
+        object in Python - it becomes a snapshot of the current value.  Where
+        it cannot be decided whether an alias names the replaced cell (symbolic
+        selectors that may coincide), the statement is outside the subset.'''
+        def sel_eq(a, b):
+            if a[0] != b[0]: return False
+            if len(a) == 1:  return True
+            x, y = a[1], b[1]
+            if isinstance(x, z3.ExprRef) and isinstance(y, z3.ExprRef):
+                if x.eq(y): return True
+                if z3.is_const(x) and z3.is_const(y) and x.sort() == y.sort() and \
+                   x.decl().kind() != z3.Z3_OP_UNINTERPRETED and y.decl().kind() != z3.Z3_OP_UNINTERPRETED:
+                    return False                    # distinct literals
+                return None
+            return x == y
+        while isinstance(st.env.get(root), Ref):
+            r = st.env[root]
+            root, path = r.root, tuple(r.path) + tuple(path)
+        path = tuple(path)
+        for name, v in list(st.env.items()):
+            if not isinstance(v, Ref):
+                continue
+            vr, vp = v.root, tuple(v.path)
+            while isinstance(st.env.get(vr), Ref):
+                r = st.env[vr]
+                vr, vp = r.root, tuple(r.path) + vp
+            if vr != root or len(vp) < len(path):
+                continue
+            verdict = True
+            for a, b in zip(path, vp):
+                e = sel_eq(a, b)
+                if e is False:
+                    verdict = False; break
+                if e is None:
+                    same = (a[1] == b[1])
+                    g = z3.And(*(st.guards + [same])) if st.guards else same
+                    if self.check(st, g) == z3.unsat:
+                        verdict = False; break
+                    g2 = z3.And(*(st.guards + [z3.Not(same)])) if st.guards else z3.Not(same)
+                    if self.check(st, g2) != z3.unsat:
+                        verdict = None
+            if verdict is False:
+                continue
+            if verdict is None:
+                raise OutsideSubset('local %s may alias the cell that line %s replaces'
+                                    % (name, self.cur_line))
+            st.env[name] = self.read_path(st, v.root, v.path)
 
     def bind_target_assign(self, tgt, val, st):
         tmp = st.fork()
